@@ -181,7 +181,9 @@ func ruleRootCauseLoop(rule string) RuleFn {
 		}
 		// (c) whatever a constructor returned is the root cause, even if it is itself a dig error (of another container)
 		cf := an.BoolEdges(fn, func(v ssa.Value) bool { return taOK(v, "errConstructorFailed") }, true)
-		okCF := len(cf) > 0
+		cfD := an.BoolEdges(fn, func(v ssa.Value) bool { return taOK(v, "errDecoratorFailed") }, true)
+		okCF := len(cf) > 0 && len(cfD) > 0
+		cf = append(cf, cfD...)
 		for _, e := range cf {
 			first := e.From.Succs[e.Succ].Instrs[0]
 			isReasonRet := func(i ssa.Instruction) bool {
@@ -199,7 +201,7 @@ func ruleRootCauseLoop(rule string) RuleFn {
 				okCF = false
 			}
 		}
-		c.Check(okCF, rule, "RootCause returns what the constructor returned", "errConstructorFailed -> its Reason, without unwrapping further", "RootCause unwraps below an errConstructorFailed link: a constructor that returns a dig error as is (the failure of a nested container) gets that error taken apart, and RootCause returns something the constructor never returned", nil, nil)
+		c.Check(okCF, rule, "RootCause returns what the constructor or decorator returned", "errConstructorFailed / errDecoratorFailed -> its Reason, without unwrapping further", "RootCause unwraps below an errConstructorFailed or errDecoratorFailed link (or does not know one of them): a constructor or decorator that returns a dig error as is (the failure of a nested container) gets that error taken apart, and RootCause returns something the constructor never returned", nil, nil)
 		c.Check(len(as) >= 1 && !asInLoop, rule, "RootCause stops at the first link that is not a dig.Error", "errors.As once, then type assertions link by link", "RootCause calls errors.As on every hop, which looks through links dig did not create: for a constructor that returns fmt.Errorf(\"...: %w\", errOfNestedInvoke) it returns the nested dig error (or its cause), not the error the constructor returned - RootCause/errors.As(dig.Error) then classify a user failure as a dig failure", nil, nil)
 	}
 }
